@@ -15,7 +15,7 @@ func c12Model_cidCast(data []byte) (cid.Cid, error) {
 	if len(data) == 0 || verifChoice("cidCast", 2) == 0 {
 		return cid.Undef, errors.New("invalid cid (model)")
 	}
-	return cid.Cid{}, nil
+	return verifC12Cid(), nil
 }
 
 // C12.indexes.values — decoders of index values and index metadata as stored in a third-party
@@ -89,3 +89,6 @@ func VerifC12IndexesValues() {
 	}
 	verifReach("end")
 }
+
+// verifC12Cid: under symgo an engine intrinsic returning a defined CID; natively cid.Undef
+func verifC12Cid() cid.Cid { return cid.Cid{} }
